@@ -193,8 +193,19 @@ func unpackSVCBResource(msg []byte, off int, length uint16) (SVCBResource, error
 		return SVCBResource{}, &nestedError{"Priority", err}
 	}
 
+	targetOff := paramsOff
 	if paramsOff, err = r.Target.unpack(msg, paramsOff); err != nil {
 		return SVCBResource{}, &nestedError{"Target", err}
+	}
+	// RFC 9460, section 2.2: the target name is never compressed. Pack writes
+	// it uncompressed, so accepting a pointer here could make the message
+	// impossible to pack again.
+	wireLen := int(r.Target.Length) + 1
+	if r.Target.Length == 1 {
+		wireLen = 1 // the root name
+	}
+	if paramsOff-targetOff != wireLen {
+		return SVCBResource{}, &nestedError{"Target", errInvalidPtr}
 	}
 
 	// Two-pass parsing to avoid allocations.
